@@ -34,7 +34,7 @@ class C03:
         rep, ctx, p = self.rep, self.ctx, self.ctx.prog
         rep.rule("C03.R1", "after the engine's own provider write, on every normal path to the success return, the last-synced markers of both "
                  "sides are stored (content writes: both sync_hash and both sync_path; mkdir / rename: both sync_path) and update_entry is "
-                 "called for the written side", expect_min=12)
+                 "called for the written side with the id the provider returned", expect_min=16)
         rep.rule("C03.R2", "those update_entry calls do not mark the entry changed; SyncState.update_entry marks changed only under `if changed`", expect_min=5)
         specs = [
             ("SyncManager.upload_synced", "upload", ["$S[synced].sync_hash = $V", "$S[changed].sync_hash = $S[changed].hash", "$S[changed].sync_path = $S[changed].path", "sync_path(synced)", "update_entry"]),
@@ -77,6 +77,24 @@ class C03:
                 rep.check("C03.R1", "%s|%s" % (f.name, need), f, pth is None, "recorded on every success path after provider.%s" % api,
                           "after the engine's own %s the book-keeping `%s` can be skipped on a success path: the echo event looks like a new change and is sent back" % (api, need),
                           witness=describe_path(pth) if pth else None)
+            # the id handed back by the provider write is what gets recorded for the written side
+            wcalls = [x for x in self.eff.provider_mutations(f) if x.func.attr == api]
+            results = set()
+            for n in ctx.own_nodes(f):
+                if isinstance(n, ast.Assign) and any(n.value is w for w in wcalls) and isinstance(n.targets[0], ast.Name):
+                    results.add(n.targets[0].id)
+            succ_ids = {id(x) for t_ in targets if cfg_root(t_) is not None for x in [cfg_root(t_)]}
+            for c in ctx.calls(f, "update_entry"):
+                # only the update that lies on the success path after the write
+                cn = g.stmt_nodes_containing(c)
+                if not cn or g.reach([w.id for w in writes], lambda n: n in cn, follow=NORMAL) is None:
+                    continue
+                kws = {k.arg: k.value for k in c.keywords}
+                oid = kws.get("oid") or (c.args[2] if len(c.args) > 2 else None)
+                names = {x.id for x in ast.walk(oid) if isinstance(x, ast.Name)} if oid is not None else set()
+                rep.check("C03.R1", "%s|recorded-id" % f.name, ctx.line(f, c), bool(names & results), "update_entry(oid=<value returned by provider.%s>)" % api,
+                          "the id recorded after the engine's own %s is `%s`, not the one the provider returned (%s): for path-style ids the entry keeps a stale id and the "
+                          "next change of the object is treated as a new object" % (api, ast.unparse(oid) if oid is not None else None, sorted(results)), func=f.qname)
             for c in ctx.calls(f, "update_entry"):
                 kws = {k.arg: k.value for k in c.keywords}
                 ch = kws.get("changed")
